@@ -87,6 +87,14 @@ func (m *Module) WriteTo(w io.Writer) (n int64, err error) {
 	if err := m.AssignMetadataIDs(); err != nil {
 		panic(fmt.Errorf("unable to assign metadata IDs of module; %v", err))
 	}
+	// Assign the local IDs of every function before anything is printed: block
+	// addresses in global initializers and in other functions are printed before
+	// the function they refer to.
+	for _, f := range m.Funcs {
+		if err := f.assignIDs(false); err != nil {
+			panic(fmt.Errorf("unable to assign IDs of function %q; %v", f.Ident(), err))
+		}
+	}
 	// Source filename.
 	if len(m.SourceFilename) > 0 {
 		// 'source_filename' '=' Name=StringLit
